@@ -71,7 +71,7 @@ func (c *c05Ctx) end(err error) {
 
 var c05Draws = []float64{0, 0.999999}
 
-var c05Outcomes = []string{"ok", "transient", "permanent", "wrapped-permanent", "joined-permanent", "throttle0", "throttle1", "throttle10", "partial", "partial-throttle10"}
+var c05Outcomes = []string{"ok", "transient", "permanent", "wrapped-permanent", "joined-permanent", "throttle0", "throttle1", "throttle10", "partial", "partial-throttle10", "attempt-expired"}
 var c05Wakes = []string{"timer", "shutdown", "cancel"}
 
 type c05Cfg struct {
@@ -159,6 +159,10 @@ func c05Body(cfg c05Cfg, maxAttempts int, res *c05Res) func() {
 			switch o {
 			case "transient":
 				return errors.New("transient")
+			case "attempt-expired":
+				// "context expiry" as a backend outcome: the ATTEMPT's own context (per-attempt timeout) ran out, the request's
+				// context is alive - an ordinary transient failure
+				return fmt.Errorf("backend call: %w", context.DeadlineExceeded)
 			case "permanent":
 				return consumererror.NewPermanent(errC05Perm)
 			case "wrapped-permanent":
